@@ -445,3 +445,24 @@ func (g *Gen) deadByFaultClosure(d int) []Stmt {
 			&CallS{E: call("coroutine.yield", call(f))}, local1("z", &Nil{}), ret(idx(v("z"), "y"))}})),
 		emit(call("coroutine.resume", v(co))), emit(call("coroutine.resume", v(co))), emit(call("coroutine.status", v(co))), g.clobber(), emit(call(f), call(f))}
 }
+
+// constBoundary: functions whose own constant tables put the constants used as method names, field
+// names, string/number operands exactly at and around index 255/256 (the RK operand limit).
+func (g *Gen) constBoundary(d int) []Stmt {
+	g.use("constant-index-boundary")
+	var out []Stmt
+	for _, n := range []int{253 + g.R.Intn(2), 255, 256, 257 + g.R.Intn(2)}[g.R.Intn(2):][:3] {
+		fn := g.fresh("kb")
+		pad := &Table{}
+		for i := 0; i < n; i++ {
+			pad.Items = append(pad.Items, TItem{Kind: 0, E: num(float64(500000 + i))})
+		}
+		body := []Stmt{local1("pad", pad), local1("o", &Table{Items: []TItem{{Kind: 1, Name: "tag", E: num(1)}}}),
+			&FuncStmt{Target: v("o"), Method: "mb" + itoa(n), F: &Func{Params: []string{"x"}, Body: []Stmt{ret(bin("+", idx(v("self"), "tag"), &Or{A: v("x"), B: num(0)}))}}},
+			set(idx(v("o"), "fb"+itoa(n)), str("field")),
+			ret(&Un{Op: "#", A: v("pad")}, &Meth{O: v("o"), M: "mb" + itoa(n), Args: []Expr{num(4)}}, idx(v("o"), "fb"+itoa(n)),
+				bin("==", idx(v("o"), "fb"+itoa(n)), str("field")), bin("+", v("p"), num(777001)), bin("..", str("kz"), v("p")), bin("<", v("p"), num(777002)))}
+		out = append(out, &LocalFunc{X: fn, F: &Func{Params: []string{"p"}, Body: body}}, emit(call(fn, g.litInt())))
+	}
+	return out
+}
